@@ -519,30 +519,7 @@ impl<'a, E: EndiannessWrite, V: EncodingVersion> XTypesSerializer<'a, E, V> {
 }
 
 const PID_SENTINEL: u16 = 1;
-
-struct Ssize<'a, 'b, E, V> {
-    serializer: &'a mut XTypesSerializer<'b, E, V>,
-    initial_pos: usize,
-}
-
-impl<'a, 'b, E: EndiannessWrite, V> Ssize<'a, 'b, E, V> {
-    fn new(serializer: &'a mut XTypesSerializer<'b, E, V>) -> Self {
-        // Place holder:
-        serializer.writer.write_slice(&[0, 0]);
-        let initial_pos = serializer.writer.buffer.len();
-
-        Self {
-            serializer,
-            initial_pos,
-        }
-    }
-    fn write_ssize(self) {
-        let ssize = (self.serializer.writer.buffer.len() - self.initial_pos) as u16;
-        self.serializer
-            .writer
-            .write_slice_at_position(E::to_bytes_u16(ssize).as_slice(), self.initial_pos - 2);
-    }
-}
+const PID_EXTENDED: u16 = 0x3f01;
 
 struct Dheader<'a, 'b, E, V> {
     serializer: &'a mut XTypesSerializer<'b, E, V>,
@@ -818,6 +795,7 @@ impl EncodingVersion for EncodingVersion1 {
 
     /// Member of mutable aggregated type (structure, union), version 1 encoding
     /// using short PL encoding when both M.id <= 2^14 and M.value.ssize <= 2^16
+    /// and long PL encoding otherwise
     ///
     /// Serialization Rule (24)
     ///
@@ -835,19 +813,48 @@ impl EncodingVersion for EncodingVersion1 {
     ) -> Result<(), XTypesError> {
         Self::align(serializer, 4);
         let member_descriptor = v.get_descriptor(member_id)?;
-        let m_flag = member_descriptor.is_must_understand as u16;
-        let pid = member_id as u16 + (m_flag << 14);
-        serializer.serialize_primitive_type(&pid);
-        let ssize = Ssize::new(serializer);
+        let m_flag = (member_descriptor.is_must_understand as u16) << 14;
+        let header_pos = serializer.writer.buffer.len();
+        // Place holder for the short parameter header (PID and length)
+        serializer.writer.write_slice(&[0; 4]);
         // PUSH( ORIGIN=0 ) is in effect for the member value only: what comes after the member
         // is aligned relative to the previous origin again
-        let value_position = ssize.serializer.writer.position;
-        ssize.serializer.push_origin_0();
+        let value_position = serializer.writer.position;
+        serializer.push_origin_0();
         if v.get_value(member_id).is_ok() {
-            ssize.serializer.serialize_value(v, member_id)?;
+            serializer.serialize_value(v, member_id)?;
         }
-        ssize.serializer.writer.position += value_position;
-        ssize.write_ssize();
+        serializer.writer.position += value_position;
+        let ssize = serializer.writer.buffer.len() - header_pos - 4;
+        match (u16::try_from(member_id), u16::try_from(ssize)) {
+            // The PIDs from 0x3f00 are reserved
+            (Ok(pid), Ok(length)) if pid < 0x3f00 => {
+                serializer
+                    .writer
+                    .write_slice_at_position(&E::to_bytes_u16(pid | m_flag), header_pos);
+                serializer
+                    .writer
+                    .write_slice_at_position(&E::to_bytes_u16(length), header_pos + 2);
+            }
+            // Serialization Rule (25), long PL encoding:
+            //   << { FLAG_I + FLAG_M + PID_EXTENDED : UInt16 }
+            //   << { slength=8 : UInt16 }
+            //   << { M.id : UInt32 }
+            //   << { M.value.ssize : UInt32 }
+            _ => {
+                let ssize = u32::try_from(ssize).map_err(|_| XTypesError::InvalidData)?;
+                let mut header = [0; 12];
+                header[0..2].copy_from_slice(&E::to_bytes_u16(PID_EXTENDED | m_flag));
+                header[2..4].copy_from_slice(&E::to_bytes_u16(8));
+                header[4..8].copy_from_slice(&E::to_bytes_u32(member_id));
+                header[8..12].copy_from_slice(&E::to_bytes_u32(ssize));
+                serializer
+                    .writer
+                    .buffer
+                    .splice(header_pos..header_pos + 4, header);
+                serializer.writer.position += 8;
+            }
+        }
         Ok(())
     }
 
